@@ -676,6 +676,34 @@ Fixpoint pg_rename (ss : pg_store) (omap : list (N * N)) (v : pg_val) : pg_val :
 Definition pg_rename_dict (ss : pg_store) (omap : list (N * N)) (d : pg_dict) : pg_dict :=
   match pg_rename ss omap (PvDict d) with PvDict d' => d' | _ => [] end.
 
+(* the loop "for (auto& oh: to_copy) { copy = replace_indirect_object(oh, true); if (!oh.isStream())
+   replaceReserved(object_map[oh], copy); }" : one object, state = (destination objects, stream provider table, error) *)
+Definition pg_replace_step (src : pg_doc) (omap : list (N * N))
+    (st : pg_store * list (N * list N) * option pg_err) (og : N) : pg_store * list (N * list N) * option pg_err :=
+  let '(ds, reg, e) := st in
+  match e with
+  | Some _ => (ds, reg, e)
+  | None =>
+    match pg_omap_find omap og with
+    | None => (ds, reg, Some PeUnm)
+    | Some l =>
+      match pg_lookup (pd_store src) og with
+      | Some (PcStream d data _) =>
+          (* keys are replaced into the (fresh, empty) dictionary of the local stream; copy_data_to
+             registers the provider under the local object number *)
+          let d0 := match pg_lookup ds l with Some (PcStream d0 _ _) => d0 | _ => [] end in
+          (pg_supd ds l (PcStream (fold_left (fun acc kv => pg_dset acc (fst kv) (snd kv)) (pg_rename_dict (pd_store src) omap d) d0) [] l),
+           match pg_stream_data src og with Some x => pg_reg_set reg l x | None => reg end, None)
+      | Some (PcObj v) =>
+          (* replaceReserved: the local object must be reserved or null *)
+          if pg_is_null ds (PvRef l)
+          then (pg_supd ds l (PcObj (pg_rename (pd_store src) omap v)), reg, None)
+          else (ds, reg, Some PeLogic)
+      | None => (ds, reg, Some PeUnm)
+      end
+    end
+  end.
+
 (* Copier::copied *)
 Definition pg_copied (src dst : pg_doc) (fid : N) : pg_doc * pg_doc * option pg_err * pg_val :=
   let c0 := mkPgCst src (pd_store dst) (pd_omap dst) [] [] None in
@@ -684,31 +712,8 @@ Definition pg_copied (src dst : pg_doc) (fid : N) : pg_doc * pg_doc * option pg_
   match c_err c with
   | Some e => (src, pd_with_omap (pd_with_store dst (c_dst c)) (c_omap c), Some e, PvNull)
   | None =>
-      let ss := pd_store src in
       let '(ds, reg, e) :=
-        fold_left (fun '(ds, reg, e) og =>
-          match e with
-          | Some _ => (ds, reg, e)
-          | None =>
-            match pg_omap_find (c_omap c) og with
-            | None => (ds, reg, Some PeUnm)
-            | Some l =>
-              match pg_lookup ss og with
-              | Some (PcStream d data _) =>
-                  (* keys are replaced into the (fresh, empty) dictionary of the local stream; copy_data_to
-                     registers the provider under the local object number *)
-                  let d0 := match pg_lookup ds l with Some (PcStream d0 _ _) => d0 | _ => [] end in
-                  (pg_supd ds l (PcStream (fold_left (fun acc kv => pg_dset acc (fst kv) (snd kv)) (pg_rename_dict ss (c_omap c) d) d0) [] l),
-                   match pg_stream_data src og with Some x => pg_reg_set reg l x | None => reg end, None)
-              | Some (PcObj v) =>
-                  (* replaceReserved: the local object must be reserved or null *)
-                  if pg_is_null ds (PvRef l)
-                  then (pg_supd ds l (PcObj (pg_rename ss (c_omap c) v)), reg, None)
-                  else (ds, reg, Some PeLogic)
-              | None => (ds, reg, Some PeUnm)
-              end
-            end
-          end) (rev' (c_tocopy c)) (c_dst c, pd_reg dst, None) in
+        fold_left (pg_replace_step src (c_omap c)) (rev' (c_tocopy c)) (c_dst c, pd_reg dst, None) in
       let dst := pd_with_reg (pd_with_omap (pd_with_store dst ds) (c_omap c)) reg in
       match e with
       | Some _ => (src, dst, e, PvNull)
